@@ -71,23 +71,36 @@ func VerifDeterminism() {
 	_, outB := f.vPost(op.q, vars, op.opName)
 	logB := vSubKeys(f.log)
 
-	dA, _ := outA["data"].(map[string]interface{})
-	dB, _ := outB["data"].(map[string]interface{})
-	verifAssert((dA == nil) == (dB == nil), "data is present in both answers or in neither")
-	if dA != nil && dB != nil {
-		vAssertSame("", dA, dB)
-	}
-	eA, eB := vErrSet(outA), vErrSet(outB)
-	verifAssert(len(eA) == len(eB), "the same set of errors")
-	for i := range eA {
-		if i < len(eB) {
-			verifAssert(eA[i] == eB[i], "the same set of errors")
+	// an operation with a recorded finding about its data has that judged on paths of its own, so that
+	// the finding hides nothing else (errors and sub-requests are compared on the other paths)
+	section := 0
+	if op.known13 != "" {
+		section = 1 + verifChoice("section", 2)
+		if section == 2 {
+			verifKnown("C13-"+op.known13, true)
 		}
 	}
-	verifAssert(len(logA) == len(logB), "the same multiset of sub-requests")
-	for i := range logA {
-		if i < len(logB) {
-			verifAssert(logA[i] == logB[i], "the same multiset of sub-requests per service")
+	dA, _ := outA["data"].(map[string]interface{})
+	dB, _ := outB["data"].(map[string]interface{})
+	if section != 1 {
+		verifAssert((dA == nil) == (dB == nil), "data is present in both answers or in neither")
+		if dA != nil && dB != nil {
+			vAssertSame("", dA, dB)
+		}
+	}
+	if section != 2 {
+		eA, eB := vErrSet(outA), vErrSet(outB)
+		verifAssert(len(eA) == len(eB), "the same set of errors")
+		for i := range eA {
+			if i < len(eB) {
+				verifAssert(eA[i] == eB[i], "the same set of errors")
+			}
+		}
+		verifAssert(len(logA) == len(logB), "the same multiset of sub-requests")
+		for i := range logA {
+			if i < len(logB) {
+				verifAssert(logA[i] == logB[i], "the same multiset of sub-requests per service")
+			}
 		}
 	}
 	verifReach("two runs compared")
